@@ -58,5 +58,26 @@ check("C11", "other",
       "typestate-style rule on the template instance: flag set on every consume exit, cleared on every boundary exit and in Reset, read by the EOF test; guard recognition for the action loop",
       "DESIGN.md 3/C11")
 
-for pid in ["C03","C06","C09","C12","C14","C15","C16","C17"]:
+check("C03", "other",
+      "Decided on the abstractly instantiated parser template (one model production per helper-rule kind and arity): the reduce sequence act -> pop(_termCounts[prod]) -> goto(_rules[prod]) from the uncovered state -> push(result) with the data flow between the steps and the action call unconditional; argument j of a user action reads stack slot Peek(n-1-j) for arities 0, 1, 3; the sugar shapes agree across the three siblings normalize() / RuleGenerated (its predicate chain is evaluated on the generated names) / template branches, and getReduceTypeForGeneratedRule reads the production normalize() puts there; every stack value is asserted to the type it was pushed with.",
+      "Not decided: uniqueness of the derivation and left-to-right order on concrete inputs (they follow from LR parsing given correct tables: C01/C04), values delivered for concrete sentences.",
+      "abstract execution of the Jet template on a synthetic model grammar, then typed-AST pattern/data-flow rules on the resulting Go; sibling cross-check of three implementations of the sugar table",
+      "DESIGN.md 3/C03")
+check("C06", "other",
+      "Decides the binding mechanism's structural conditions: the only go/types predicate deciding a parameter match is AssignableTo(type of term i, type of parameter i) after an arity test, over all candidate methods; each of the seven failure conditions of the statement is tested (return types by types.Identical) and reported with Errorf positioned at the method/production concerned, success only without logged errors; every _cast of a stack slot uses the type that slot was pushed with, never the parameter type; stage order; go_type spells types as given with the qualifier empty exactly for the own package; every import alias is written.",
+      "Not decided: that the output compiles for every Go type shape (unexported/internal types of other packages, type parameters, vendoring), and run-time values.",
+      "typed-AST rules on assign_actions.go (predicate identity, argument provenance, guard/diagnostic pairing) + provenance-tagged type placeholders in the abstract template instance (term/rule/param) to decide which type every _cast uses",
+      "DESIGN.md 3/C06")
+check("C09", "other",
+      "Decided on the parser template instances (both variants): lookahead typestate (every store to the lookahead symbol is a Token or an Error; unchecked assertions are reached only with the asserted dynamic type, checked per call site of _makeError); parse returns true only through the accept branch; _recover succeeds only after queuing the real lookahead and installing (ERROR, Error), fails only at EOF; the Error is built from the offending lookahead before any token is skipped and carries the current row's terminals; the recovery loops save/restore the stack around each attempt, pop one state per search step, skip lexer errors and consume a token per retry; ERROR is terminal #1.",
+      "Not decided: termination of reduce sequences and of the reduce-on-ERROR simulation (table dependent), correctness of that simulation (it follows _goto from the un-popped state and ignores a failed lookup), progress across successive recoveries, and 'first token at which the input stops being a viable prefix'. DESIGN.md section 5 lists three concrete failing inputs of the pinned tree in exactly this undecided part.",
+      "typestate rule over stores/assertions of the lookahead fields; CFG/AST shape rules on parse and _recover (single success exit, installed-error-before-return, save/restore/consume ordering)",
+      "DESIGN.md 3/C09")
+check("C16", "other",
+      "Decided on the template instance with the feature switch on: the switch is bound to 'the parser type has a method named _onBounds' and the called name is the same constant; in the reduce arm the children's bounds are taken before the pop, empty children trimmed at both ends, Begin/End from the first/last survivor, Empty iff none survives, _onBounds(res, Begin, End) called exactly once after the action under !Empty, the pushed item carries the bounds; a shifted symbol's bounds are the token of the symbol being shifted; the feature-switched blocks (tracked as rendered regions) only write what they declare, call only len/PeekSlice/_onBounds, contain no control transfer, and nothing outside reads their variables.",
+      "Not decided: the spans reported on concrete inputs.",
+      "region-tracked abstract template instantiation (which Go text came from {{if emit_bounds}}), effect check of those regions, pattern rules on the bounds computation",
+      "DESIGN.md 3/C16")
+
+for pid in ["C12","C14","C15","C17"]:
     na(pid, "check under construction in this session; see DESIGN.md section 3 for the planned rules")
